@@ -563,3 +563,51 @@ Definition sys_lsetxattr (c : ctx) (f : fs) (p key value : bytes) : fs * result 
     | None => (f, RErr ENOENT)
     end
   end.
+
+(* chdir(2): follows; the working directory is part of the process context *)
+Definition sys_chdir (c : ctx) (f : fs) (p : bytes) : ctx * result :=
+  match resolve_ino c f p true with
+  | inr e => (c, RErr e)
+  | inl i => if is_dir f i then ({| c_root := c_root c; c_cwd := i |}, ROk) else (c, RErr ENOTDIR)
+  end.
+
+(* ---------------- observation: what an lstat-walk from a directory sees ---------------- *)
+Fixpoint insert_sorted {A} (k : bytes) (v : A) (l : list (bytes * A)) : list (bytes * A) :=
+  match l with
+  | [] => [(k, v)]
+  | (k', v') :: r => match cmp_bytes k k' with
+                     | Gt => (k', v') :: insert_sorted k v r
+                     | _ => (k, v) :: l
+                     end
+  end.
+Definition sort_ents {A} (l : list (bytes * A)) : list (bytes * A) :=
+  fold_right (fun kv acc => insert_sorted (fst kv) (snd kv) acc) [] l.
+
+Definition child_path (d name : bytes) : bytes :=
+  match d with [] => name | _ => d ++ sep :: name end.
+
+(* entries below directory [i] (not [i] itself): relative path, inode number, record;
+   directory before its contents, siblings bytewise by name; never through symlinks.
+   [fuel] bounds the depth. *)
+Fixpoint tree_below (fuel : nat) (f : fs) (i : N) (rel : bytes) : list (bytes * N * inode) :=
+  match fuel with
+  | O => []
+  | S fuel' =>
+    match dir_of f i with
+    | None => []
+    | Some (_, es) =>
+      flat_map (fun e : bytes * N =>
+                  let p := child_path rel (fst e) in
+                  match get f (snd e) with
+                  | Some n => (p, snd e, n) :: tree_below fuel' f (snd e) p
+                  | None => []
+                  end) (sort_ents es)
+    end
+  end.
+
+Definition empty_meta (mode : N) : meta :=
+  {| m_mode := mode; m_uid := 0; m_gid := 0; m_mtime := now_mark; m_xattrs := [] |}.
+(* a file system holding one empty root directory (inode 1, its own parent), mode 0755 *)
+Definition fs_init : fs :=
+  {| f_inodes := [(1, {| i_kind := KDir 1 []; i_meta := empty_meta 493 |})]; f_next := 2 |}.
+Definition ctx_init : ctx := {| c_root := 1; c_cwd := 1 |}.
